@@ -39,6 +39,14 @@ def run(ctx):
     ctx.cov['distinct_nontrivial'] = total
     ctx.cov['rule'] = ('cases = every (reachable abstract tree, call, raw spelling) expanded by TLC; each is distinct by '
                        'construction; non-trivial = all (each compares result + whole tree + snapshot obligations)')
+    # ---------------- (R2) call SEQUENCES through the API (the state is reached by the calls themselves)
+    rq = ctx.tlc_must_pass('fs', 'MemFSSeq', 'MC_MemFSSeq_mem_%s.cfg' % ('quick' if q else 'thorough'), workers=8, timeout=1800, name='MemFSSeq: every sequence of 3 mutating calls')
+    shq, totq, takq = vlib.shard_lines(ctx, rq['out'], NPROC, marker='\\"k\\":\\"seq\\"', every=5 if q else 1, offset=ctx.seed)
+    mq = vlib.run_sharded(ctx, lambda p: ['fsseq', '--in', p, '--backends', 'mem,memview,memview2'], shq)
+    ctx.cov['replay'].append(dict(what='call sequences through the API (in-memory)', model_sequences=totq, executed=mq['executed'], failures=mq['failures_by_key']))
+    ctx.cov['evaluations'] += mq['executed']
+    ctx.cov['distinct_nontrivial'] += mq['executed']
+    vlib.report_case_failures(ctx, mq, 'call sequences')
     # ---------------- (T) random histories -> trace validation
     tf = ctx.tmp('c01_trace.ndjson')
     n, steps = (90, 70) if q else (1500, 150)
